@@ -15,6 +15,14 @@ def frac(name):
 def strict_rule(chk, run, fn, construct, lower_tag, upper_tag=None):
     """Comparisons in `fn` involving the tagged bound: strict, bound on the correct side."""
     evs = run.events("compare", fn)
+    if upper_tag is not None:
+        # the fractions are fractions of the FINAL value of the cumulative measure: wherever one element of the measure is picked out to
+        # scale a fraction, it is the last one
+        picks = [e for e in run.events("subscript", fn) if e.index.kind == K_SCALAR and e.index.has_const() and e.base.kind == K_ARRAY and
+                 (0 in e.base.mono or "cum" in e.base.tags) and e.base.dtype != "int" and "where-index" not in e.base.tags]
+        for e in list({id(e.node): e for e in picks}.values()):
+            chk.ob("R-STRICT", "%s{total: %s}" % (construct, " ".join(ast.unparse(e.node).split())), "the fractions scale the final value of the measure (element [-1])",
+                   e.index.const == -1, derived="element [%r]" % (e.index.const,), loc=e.loc, stmt=e.stmt)
     for tag, want_small in ((lower_tag, True), (upper_tag, False)):
         if tag is None:
             continue
@@ -236,6 +244,6 @@ def check_value(chk, c, v, se, measure_tags, atom, not_tags, forwarder=False):
             expect(chk, "R-REL", c + "." + nm, x, deg={atom: 0, DT: 1}, parity={atom: "even"}, kind=K_SCALAR, atoms=(atom, DT))
             expect(chk, "R-MEASURE", c + "." + nm, x, tags_has=list(measure_tags), tags_not=list(not_tags))
     else:
-        expect(chk, "R-ENDS", c, v, sign="nonneg", tags_has=["sel:first", "sel:last"], kind=K_SCALAR)
+        expect(chk, "R-ENDS", c, v, sign="nonneg", tags_has=["sel:first", "sel:last", "span:hi-lo"], kind=K_SCALAR)      # the duration is end - start
         expect(chk, "R-REL", c, v, deg={atom: 0, DT: 1}, parity={atom: "even"}, atoms=(atom, DT))
         expect(chk, "R-MEASURE", c, v, tags_has=list(measure_tags), tags_not=list(not_tags))
